@@ -270,10 +270,37 @@ func vC18High(d int) [][]float32 {
 	return out
 }
 
+// vC18Basis: for one dimension, signed unit spikes at every position, all-ones, a ramp
+// and an alternating vector: any index arithmetic slip in a (possibly unrolled) kernel
+// loop changes some pairwise value.
+func vC18Basis(d int) [][]float32 {
+	var out [][]float32
+	for i := 0; i < d; i++ {
+		for _, x := range []float32{1, -2} {
+			v := make([]float32, d)
+			v[i] = x
+			out = append(out, v)
+		}
+	}
+	ones := make([]float32, d)
+	ramp := make([]float32, d)
+	alt := make([]float32, d)
+	for i := 0; i < d; i++ {
+		ones[i] = 1
+		ramp[i] = float32(i + 1)
+		if i%2 == 0 {
+			alt[i] = 0.5
+		} else {
+			alt[i] = -3
+		}
+	}
+	return append(out, ones, ramp, alt)
+}
+
 func init() {
 	vRegister(&vCheck{
 		ID: "C18", Level: "exploration", Engine: "domainmc",
-		Rule:        "Exhaustive lattice: ALL vectors in A^d (A = 15 values spanning 1e-6..1e6 with signs, d in {1,2}; 7-value sub-alphabet for d=3), all ordered pairs (non-negativity, exact symmetry and zero self-distance for l2/l2^2, l2^2 value, l2 = sqrt(l2^2), cosine range/symmetry/self/value vs float64 / invariance under 4 positive scalings, batch == scalar bit-exact, Preprocess leaves its argument bit-identical, in-place == copying preprocess and unit norm, zero vector rejected), all triples over d=1 (full) and d=2 (sub-alphabet) for the triangle inequality, Norm/Scale/Normalize/NormalizeInPlace against their definitions, plus every pair of structured block-constant / alternating / half-half / nearly-parallel vectors in d in {64, 512}. Tolerance 8*d*2^-23 relative to operand magnitudes. Non-trivial = distinct non-zero pairs on which every cosine law was evaluated.",
+		Rule:        "Exhaustive lattice: ALL vectors in A^d (A = 15 values spanning 1e-6..1e6 with signs, d in {1,2}; 7-value sub-alphabet for d=3), all ordered pairs (non-negativity, exact symmetry and zero self-distance for l2/l2^2, l2^2 value, l2 = sqrt(l2^2), cosine range/symmetry/self/value vs float64 / invariance under 4 positive scalings, batch == scalar bit-exact, Preprocess leaves its argument bit-identical, in-place == copying preprocess and unit norm, zero vector rejected), all triples over d=1 (full) and d=2 (sub-alphabet) for the triangle inequality, Norm/Scale/Normalize/NormalizeInPlace against their definitions, plus, for d in {4,5,6,7,8,9,15,16,17,31,33}, every pair of signed unit spikes at every position / all-ones / ramp / alternating vectors (index arithmetic of unrolled loops), plus every pair of structured block-constant / alternating / half-half / nearly-parallel vectors in d in {64, 512}. Tolerance 8*d*2^-23 relative to operand magnitudes. Non-trivial = distinct non-zero pairs on which every cosine law was evaluated.",
 		Assumptions: []string{"tolerances scaled to float32 accumulation error: 8*d*2^-23 times the operand magnitudes"},
 		Shards: func(tier string) []vShard {
 			var sh []vShard
@@ -318,6 +345,10 @@ func init() {
 				mk("d3", vAllVecs(vC18Sub, 3), vAllVecs([]float32{0, 1, -1e3}, 3))
 			} else {
 				mk("d3", vAllVecs([]float32{0, 1e-3, 1, -1, 1e3}, 3), nil)
+			}
+			for _, d := range []int{4, 5, 6, 7, 8, 9, 15, 16, 17, 31, 33} {
+				bs := vC18Basis(d)
+				mk(fmt.Sprintf("basis-d%d", d), bs, bs[len(bs)-6:])
 			}
 			mk("d64", vC18High(64), vC18High(64)[:12])
 			mk("d512", vC18High(512), nil)
